@@ -119,12 +119,43 @@ def gen_units(spec, lowered, work):
                     return '{ __CPROVER_assert(0, "EXTRACTION FAILED: %s"); __CPROVER_assume(0); }' % n
                 raise X.ExtractionError('template %s references unknown target %s' % (getattr(tmpl, '__name__', tmpl), n))
             ex = lowered[n]['ex']
-            return '/* lowered from %s */ %s' % (ex.where(), lowered[n]['body'])
+            return '/* lowered from %s */ %s /*@END %s@*/' % (ex.where(), lowered[n]['body'], n)
         text = re.sub(r'/\*@BODY (\w+)@\*/', sub, text)
         p = os.path.join(work, uname)
         open(p, 'w').write(text)
         units[uname] = p
     return units
+
+
+def compile_check(spec, uname, src, work):
+    """Compile the generated unit with goto-cc for every define-set its proofs use; on an error located inside a lowered body
+    return that target's name, else None."""
+    defsets = []
+    for pr in spec.PROOFS:
+        if pr.unit == uname and sorted(pr.defines) not in defsets:
+            defsets.append(sorted(pr.defines))
+    incs = ['-I', os.path.join(VERIF, 'prelude'), '-I', os.path.join(VERIF, 'specs'), '-I', os.path.dirname(src)]
+    text = None
+    for ds in defsets[:8]:
+        cmd = ['goto-cc', '-c'] + ['-D' + x for x in ds] + ['-DVERIF_CBMC'] + incs + [src, '-o', os.path.join(work, 'cc_%s.o' % re.sub(r'\W', '_', uname))]
+        rc, out, _ = sh(cmd, timeout=120)
+        if rc == 0:
+            continue
+        m = re.search(re.escape(src) + r':(\d+):', out) or re.search(r':(\d+):\d*:? *error', out)
+        if not m:
+            return None
+        line = int(m.group(1))
+        if text is None:
+            text = open(src).read()
+        lines = text.split('\n')
+        pos = sum(len(l) + 1 for l in lines[:line - 1])
+        # the lowered body that contains this position
+        for mm in re.finditer(r'/\* lowered from [^*]*\*/', text):
+            e = re.compile(r'/\*@END (\w+)@\*/').search(text, mm.end())
+            if e and mm.start() <= pos <= e.end():
+                return e.group(1)
+        return None
+    return None
 
 
 def run_proof(pr, units, work):
@@ -455,6 +486,23 @@ def main():
             units.update(gen_units(one, lowered, work))
         except X.ExtractionError as e:
             broken_units[uname] = str(e)
+    # left-over C++ in ONE lowered body must not take the whole unit down: compile each unit once per define-set; when goto-cc reports
+    # an error inside a lowered body, that target is treated as not lowerable (its proofs become undecided) and the unit is regenerated
+    for uname, tmpl in spec.UNITS.items():
+        for _round in range(6):
+            if uname not in units:
+                break
+            bad = compile_check(spec, uname, units[uname], work)
+            if not bad or bad in failed_targets:
+                break
+            failed_targets[bad] = '%s: the lowered text does not compile as C (left-over C++ after the lowering rules)' % bad
+            lowered.pop(bad, None)
+            try:
+                one = type('S', (), dict(ID=spec.ID, UNITS={uname: tmpl}, FAILED_TARGETS=failed_targets))
+                units.update(gen_units(one, lowered, work))
+            except X.ExtractionError as e:
+                broken_units[uname] = str(e)
+                units.pop(uname, None)
     for tname, msg in failed_targets.items():
         undecided.append('extraction: %s' % msg)
     for t in spec.TARGETS:
